@@ -238,9 +238,27 @@ class Locals:
         self.defs = {}
         self.multi = set()
         self.types = {}
+        self.payload_defs = {}      # x of `if let Some(x) = e` / `Ok(x)` / `match e { Some(x) => ..}` -> e (provenance only)
         for x in walk(root):
             if x["k"] == "Path" and x.get("rk") == "Local" and "ty" in x:
                 self.types.setdefault(x["res"], x["ty"])
+            if x["k"] == "LetE":
+                p = x["pat"]
+                while p["k"] == "PRef":
+                    p = p["sub"]
+                if p["k"] == "PTS" and len(p.get("subs", [])) == 1:
+                    b = p["subs"][0]
+                    while b["k"] == "PRef":
+                        b = b["sub"]
+                    if b["k"] == "Bind" and "sub" not in b:
+                        self.payload_defs[b["id"]] = x["init"]
+            if x["k"] == "Match":
+                for a in x["arms"]:
+                    p = a["pat"]
+                    while p["k"] == "PRef":
+                        p = p["sub"]
+                    if p["k"] == "PTS" and len(p.get("subs", [])) == 1 and p["subs"][0]["k"] == "Bind" and "sub" not in p["subs"][0]:
+                        self.payload_defs[p["subs"][0]["id"]] = x["scrut"]
             if x["k"] == "Let" and x["pat"]["k"] == "Bind" and "init" in x and "sub" not in x["pat"]:
                 i = x["pat"]["id"]
                 if i in self.defs:
@@ -581,6 +599,94 @@ def guard_atoms(gs):
         if g[0] == "if" and g[1]["k"] != "LetE":
             add(g[1], g[2])
     return pos, neg
+
+
+def leaf_results(n):
+    """[(leaf_expr, holder_block)]: every expression that can become the value of `n` (its tail, decomposed through blocks,
+    `if`, `match`) or be returned from inside it with `return` (decomposed the same way); holder = innermost block"""
+    out = []
+
+    def value(x, holder):
+        x0 = x
+        while x["k"] in ("Ref",) or (x["k"] == "Un" and x["op"] == "*"):
+            x = x["e"]
+        k = x["k"]
+        if k == "Block":
+            for st in x["stmts"]:
+                stmt(st, x)
+            if "expr" in x:
+                value(x["expr"], x)
+        elif k == "If":
+            value(x["t"], holder)
+            if "e" in x:
+                value(x["e"], holder)
+        elif k == "Match":
+            for a in x["arms"]:
+                value(a["body"], holder)
+        elif k == "Ret":
+            if "e" in x:
+                value(x["e"], holder)
+        else:
+            out.append((x0, holder))
+
+    def stmt(x, holder):
+        k = x["k"]
+        if k == "Ret":
+            if "e" in x:
+                value(x["e"], holder)
+        elif k == "Block":
+            for st in x["stmts"]:
+                stmt(st, x)
+            if "expr" in x:
+                stmt(x["expr"], x)
+        elif k == "If":
+            stmt(x["t"], holder)
+            if "e" in x:
+                stmt(x["e"], holder)
+        elif k == "Match":
+            for a in x["arms"]:
+                stmt(a["body"], holder)
+        elif k == "Loop":
+            stmt(x["body"], holder)
+        elif k == "Let":
+            if "init" in x and x["init"] is not None:
+                stmt(x["init"], holder)
+            if x.get("els"):
+                stmt(x["els"], holder)
+        elif k in ("Closure",):
+            return
+    value(n, n if n["k"] == "Block" else None)
+    return out
+
+
+def find_iterations(root):
+    """every iteration over a collection, whatever its spelling: `for pat in X { body }` and `X.for_each(|pat| body)`.
+    [{node, kind, iter (the iterated expression X), pat (binder pattern), body}]"""
+    out = []
+    for x in walk_exprs(root):
+        if x["k"] == "MCall" and x["m"] == "for_each" and x["args"]:
+            cl = peel(x["args"][0], methods=False)
+            if cl["k"] == "Closure":
+                ps = cl.get("params") or []
+                out.append({"node": x, "kind": "for_each", "iter": x["recv"], "pat": ps[0] if ps else None, "body": cl["body"]})
+        elif x["k"] == "Match" and str(x.get("src", "")).startswith("ForLoop") and x["arms"]:
+            sc = peel(x["scrut"], methods=False)
+            it = sc["args"][0] if sc["k"] == "Call" and sc["args"] and "into_iter" in str(sc.get("callee", "")) else sc
+            loop = x["arms"][0]["body"]
+            for y in walk_exprs(loop):
+                if y["k"] == "Match" and str(y.get("src", "")).startswith("ForLoop") and y is not x:
+                    for a in y["arms"]:
+                        rp = render_pat(a["pat"])
+                        if "Some" in rp:
+                            subs = a["pat"].get("subs") or ([f["pat"] for f in a["pat"].get("fields", [])] if a["pat"]["k"] == "PStruct" else [])
+                            out.append({"node": x, "kind": "for", "iter": it, "pat": subs[0] if subs else None, "body": a["body"]})
+                    break
+    return out
+
+
+def pat_binders(p):
+    """ids of all bindings of a pattern, in order"""
+    return [x["id"] for x in walk(p) if x["k"] == "Bind"] if p else []
 
 
 def conjuncts(c):
